@@ -40,7 +40,7 @@ def owned_all(v, memo):
 
 def unit_sharing(spec_name, k, opts):
     spec = SPECS[spec_name]
-    I = load('lib', dict(rc_new_owned=False))
+    I = load('lib', dict(rc_new_owned=False, loop_bound=opts.get('loop_bound', 8)))
     I.prov = {'allocs': {}, 'inserted': {}}
     w = world_for(k)
     env, mem = table_env(I)
@@ -93,7 +93,7 @@ def sharing_jobs(quick):
         kk = 2 if (quick or op in ('eq', 'xor', 'ite', 'aln/2', 'exn/2', 'count_eq/1,1', 'count_leq/1,1', 'all/1', 'exists/2')) else 3
         if op.startswith(('aln', 'amn', 'exn', 'count')):
             kk = 1 if quick else 2
-        if op in ('retain', 'model', 'clean', 'not'):
+        if op in ('retain', 'model', 'not'):
             kk = 3          # a rebuilt node *above* a changed sub-diagram needs three levels (seed C14-4)
         jobs.append(('sharing %s k=%d' % (op, kk), unit_sharing, (op, kk, {})))
     return jobs
@@ -163,13 +163,14 @@ def main():
     jobs += sharing_jobs(quick)
     # (a)(ii): two-operation histories
     rnd = random.Random(SEED)
-    pairs = list(itertools.product(PAIR_OPS, PAIR_OPS))
+    pairs = list(itertools.product(PAIR_OPS, PAIR_OPS)) + [('clean', b) for b in PAIR_OPS] + [('clean', 'clean')]
     if quick:
         # every operation appears as first and as second; plus seeded extra pairs
         base = [(a, PAIR_OPS[(i + 1 + SEED) % len(PAIR_OPS)]) for i, a in enumerate(PAIR_OPS)] + [(a, a) for a in PAIR_OPS]
         derived = ['eq', 'xor', 'nor', 'nand', 'ite', 'implies']
         base += [(a, b) for a in derived for b in derived if a != b]
         base += [('retain', 'retain'), ('model', 'retain'), ('exists/1', 'all/1'), ('all/1', 'exists/1')]
+        base += [('clean', 'var'), ('clean', 'not'), ('clean', 'and'), ('clean', 'clean')]
         extra = rnd.sample(pairs, 24)
         pairs = list(dict.fromkeys(base + extra))
     for a, b in pairs:
